@@ -62,21 +62,31 @@ impl<const BITS: usize, const LIMBS: usize> Uint<BITS, LIMBS> {
         // Adjust result to get the exact value. At most one of these should happen, but
         // we loop regardless.
         loop {
+            #[cfg(recmo_uint_verif)]
+            crate::__verif::tick(crate::__verif::LOOP_LOG_DOWN);
             if let Some(value) = base.checked_pow(result) {
                 if value > self {
+                    #[cfg(recmo_uint_verif)]
+                    crate::__verif::hit(crate::__verif::LOG_DECREMENT);
                     assert!(!result.is_zero());
                     result -= Self::ONE;
                     continue;
                 }
             } else {
+                #[cfg(recmo_uint_verif)]
+                crate::__verif::hit(crate::__verif::LOG_OVERFLOW_DECREMENT);
                 // Overflow, so definitely larger than `value`
                 result -= Self::ONE;
             }
             break;
         }
         while let Some(trial) = result.checked_add(Self::ONE) {
+            #[cfg(recmo_uint_verif)]
+            crate::__verif::tick(crate::__verif::LOOP_LOG_UP);
             if let Some(value) = base.checked_pow(trial) {
                 if value <= self {
+                    #[cfg(recmo_uint_verif)]
+                    crate::__verif::hit(crate::__verif::LOG_INCREMENT);
                     result = trial;
                     continue;
                 }
